@@ -59,7 +59,7 @@ func (c06) Gen(r *core.Rng, tier string, idx int) *core.Trace {
 	t.Cfg["bs"] = core.PickOf[int64](r, 2048, 2048, 2048, 4096, 8192)
 	t.Cfg["start"] = core.PickOf[int64](r, 0, 0, 1<<20)
 	t.Cfg["tag"] = int64(r.U64() >> 2)
-	t.Cfg["depth"] = int64(r.PickW(30, 30, 20, 10, 5, 5)) // 0,1,2,3, 6, 8
+	t.Cfg["depth"] = int64(r.PickW(30, 28, 18, 9, 5, 4, 4, 2)) // 0,1,2,3, 6, 8 (deep override), 8 and 10 without the override: relocation under Rock Ridge, refusal otherwise
 	t.Cfg["nfiles"] = r.Range(0, 12)
 	t.Cfg["bigdir"] = 0
 	if r.Chance(15) {
@@ -86,8 +86,8 @@ func c06Tree(t *core.Trace) []imgEntry {
 	tag := uint64(t.I("tag"))
 	r := core.NewRng(tag ^ 0xc06)
 	var tree []imgEntry
-	depthIdx := t.I("depth") % 6
-	depth := []int{0, 1, 2, 3, 6, 8}[depthIdx]
+	depthIdx := t.I("depth") % 8
+	depth := []int{0, 1, 2, 3, 6, 8, 8, 10}[depthIdx]
 	dirs := []string{""}
 	cur := ""
 	for d := 1; d <= depth; d++ {
@@ -300,7 +300,7 @@ func execIsoBuild(t *core.Trace, prop string) *core.Result {
 		if ferr != nil {
 			return
 		}
-		ferr = fs.Finalize(iso9660.FinalizeOptions{RockRidge: mode == 1 || mode == 3, Joliet: mode >= 2, DeepDirectories: t.I("depth")%6 >= 5, VolumeIdentifier: t.Sg("volid")})
+		ferr = fs.Finalize(iso9660.FinalizeOptions{RockRidge: mode == 1 || mode == 3, Joliet: mode >= 2, DeepDirectories: t.I("depth")%8 == 5, VolumeIdentifier: t.Sg("volid")})
 	}); pk {
 		return fail(prop+".panic", loc, fmt.Sprintf("Finalize panicked: %v", pv))
 	}
@@ -344,8 +344,11 @@ func execIsoBuild(t *core.Trace, prop string) *core.Result {
 			res.Probe("multi-sector-dir")
 		}
 	}
-	if t.I("depth")%6 >= 4 {
+	if t.I("depth")%8 >= 4 {
 		res.Probe("deep")
+	}
+	if t.I("depth")%8 >= 6 {
+		res.Probe("deeper-than-8-accepted")
 	}
 	if t.I("collide") == 1 {
 		res.Probe("collision-group")
